@@ -54,13 +54,13 @@ def run(ctx):
     ctx.preload(cfgs)
     for cfg in cfgs:
         fs = ctx.facts(cfg)
-        eval_meta(ctx, cfg, fs)
-        skip_census(ctx, cfg, fs)
-        walker_rules(ctx, cfg, fs, 'W.walkers', WALKERS)
-        dedup(ctx, cfg, fs)
-        item_copy(ctx, cfg, fs)
-        names(ctx, cfg, fs)
-        order(ctx, cfg, fs)
+        ctx.guard(eval_meta, ctx, cfg, fs)
+        ctx.guard(skip_census, ctx, cfg, fs)
+        ctx.guard(walker_rules, ctx, cfg, fs, 'W.walkers', WALKERS)
+        ctx.guard(dedup, ctx, cfg, fs)
+        ctx.guard(item_copy, ctx, cfg, fs)
+        ctx.guard(names, ctx, cfg, fs)
+        ctx.guard(order, ctx, cfg, fs)
 
 def self_fields_used(fs, body, callee_pats, argpos=0):
     """fields of `self` that reach the given argument position of calls matching the patterns (in the body or its closures)"""
